@@ -419,12 +419,40 @@ Definition show_pdict (d : pdict) : string :=
   fold_right (fun kv acc => append (show_ustr (fst kv)) (append "=" (append (show_pval (snd kv)) (append ";" acc))))
              EmptyString d.
 
-Definition show_outcome (c : carrier) (r : result pdict) : string :=
-  match r with
-  | Ok d => append "OK " (show_pdict (match c with CObject _ => sort_pdict d | _ => d end))
-  | Raise e => append "EXC " e
+Definition opt_Z_eqb (a b : option Z) : bool :=
+  match a, b with Some x, Some y => (x =? y)%Z | None, None => true | _, _ => false end.
+
+Definition pval_eqb (a b : pval) : bool :=
+  match a, b with
+  | PJ x, PJ y => jvalue_eqb x y
+  | PDt l o, PDt l' o' => (l =? l')%Z && opt_Z_eqb o o'
+  | PDate y m d, PDate y' m' d' => (y =? y')%Z && (m =? m')%Z && (d =? d')%Z
+  | _, _ => false
   end.
 
+Definition view (c : carrier) (d : pdict) : pdict := match c with CObject _ => sort_pdict d | _ => d end.
+
+(* what changed from one version to the next: new or changed entries (in the order of the new
+   version), then the names that disappeared *)
+Definition show_diff (old new : pdict) : string :=
+  append
+    (fold_right (fun kv acc =>
+       if match plookup (fst kv) old with Some v => pval_eqb v (snd kv) | None => false end then acc
+       else append (show_ustr (fst kv)) (append "=" (append (show_pval (snd kv)) (append ";" acc))))
+       EmptyString new)
+    (fold_right (fun kv acc => if has_key (fst kv) new then acc else append "-" (append (show_ustr (fst kv)) (append ";" acc)))
+       EmptyString old).
+
 Definition sep : string := " | ".
-Definition show_trace (c : carrier) (tr : list (result pdict)) : string :=
-  fold_right (fun r acc => append (show_outcome c r) (append sep acc)) EmptyString tr.
+
+(* one line per chain: the outcome of every operation (as a difference to the version it was
+   applied to), then the complete last version *)
+Fixpoint show_steps (c : carrier) (cur : pdict) (tr : list (result pdict)) : string :=
+  match tr with
+  | [] => append "FINAL " (show_pdict (view c cur))
+  | Ok d :: rest => append "OK " (append (show_diff (view c cur) (view c d)) (append sep (show_steps c d rest)))
+  | Raise e :: rest => append "EXC " (append e (append sep (show_steps c cur rest)))
+  end.
+
+Definition show_chain (T : vtables) (nm : naive_mode) (c : carrier) (d : pdict) (ops : list op) : string :=
+  show_steps c d (run_chain T nm c d ops).
